@@ -324,6 +324,8 @@ class GraphParser:
         self.workflow_state_polling_tasks: Dict = {}
         self.expire_triggers = expire_triggers
         self.end_of_chain_nodes: set[str] = set()
+        # right sides that are followed by another arrow in their chain
+        self.mid_chain_rights: set[str] = set()
 
         # Record task outputs as optional or required:
         #   {(name, output): (is_optional, is_member)}
@@ -514,6 +516,8 @@ class GraphParser:
 
             for i in range(0, len(chain) - 1):
                 pairs.add((chain[i], chain[i + 1]))
+                if i + 2 < len(chain):
+                    self.mid_chain_rights.add(chain[i + 1])
 
             # Record end of chain nodes (can be multiple with &)
             self.end_of_chain_nodes.update(
@@ -999,6 +1003,9 @@ class GraphParser:
                     output = TaskTrigger.standardise_name(output)
                 elif optional or (
                     right not in self.end_of_chain_nodes
+                    # (a node that ends one line may still be in the middle
+                    # of the chain this pair comes from)
+                    or self.OP_AND.join(rights) in self.mid_chain_rights
                     or not expr
                 ):
                     # Infer "name:succeeded?" for explicit "name?"
